@@ -62,11 +62,16 @@ pub enum Book {
     B8,
     /// a large book: 70 Standard(2) orders #100..#169
     B9,
+    /// the large book after its 36 oldest orders were cancelled (a long run of stale tickets at the head)
+    B10,
+    /// a reserve order whose hidden part is smaller than its replenish amount: RS(4,1,thr 3,amt 5,auto) S5
+    B11,
 }
 
 /// operations applied to the book before the threads start (start from a non-initial state)
 pub fn book_prelude(b: Book) -> Vec<OrderUpdate> {
     match b {
+        Book::B10 => (0..36).map(|i| OrderUpdate::Cancel { order_id: oid(100 + i) }).collect(),
         Book::B7 => vec![
             OrderUpdate::Cancel { order_id: oid(3) },
             OrderUpdate::UpdateQuantity {
@@ -89,7 +94,27 @@ pub fn book_orders(b: Book) -> Vec<Ord_> {
         Book::B4 => vec![mk_ts(Tmpl::RSn, 1, p, 1), mk_ts(Tmpl::S5, 2, p, 2)],
         Book::B6 => vec![mk_ts(Tmpl::IC23, 1, p, 1), mk_ts(Tmpl::RS36, 2, p, 2)],
         Book::B8 => vec![mk_ts(Tmpl::RSh, 1, p, 1), mk_ts(Tmpl::S5, 2, p, 2)],
-        Book::B9 => (0..70).map(|i| crate::seq_level::bulk_order(i, p)).collect(),
+        Book::B9 | Book::B10 => (0..70).map(|i| crate::seq_level::bulk_order(i, p)).collect(),
+        Book::B11 => vec![
+            crate::seq_level::set_id_ts(
+                &pricelevel::OrderType::ReserveOrder {
+                    id: oid(1),
+                    price: p,
+                    visible_quantity: 4,
+                    hidden_quantity: 1,
+                    side: pricelevel::Side::Buy,
+                    timestamp: 1,
+                    time_in_force: pricelevel::TimeInForce::Gtc,
+                    replenish_threshold: 3,
+                    replenish_amount: Some(5),
+                    auto_replenish: true,
+                    extra_fields: (),
+                },
+                oid(1),
+                1,
+            ),
+            mk_ts(Tmpl::S5, 2, p, 2),
+        ],
         Book::B7 => vec![
             mk_ts(Tmpl::S10, 1, p, 1),
             mk_ts(Tmpl::S5, 2, p, 2),
